@@ -169,8 +169,20 @@ def cases(rng, tier):
     for _ in range(fw.tier_scale(tier, 500, 5000)):
         s = gen_string(rng)
         lk = gen_lookup(rng, s)
-        if not lk and rng.random() < 0.5:
-            lk = [[enc(k), enc(v)] for k, v in [("a", 1), ("b", None), (1, "one"), (12, [1])][:rng.randrange(1, 5)]]
+        if rng.random() < 0.7:      # keys taken from the diagram itself, so that the lookup really applies
+            keys = []
+            for w in _words(s)[:6]:
+                try:
+                    k = int(w)
+                except ValueError:
+                    try:
+                        k = float(w)
+                    except ValueError:
+                        k = w
+                if k == k and k not in keys and not (isinstance(k, float) and abs(k) > 1e15):
+                    keys.append(k)
+            rng.shuffle(keys)
+            lk = [[enc(k), enc(rng.choice(LOOKUP_VALUES))] for k in keys[:rng.randrange(1, 4)]] or lk
         yield {"op": "marbles_ctx", "which": rng.choice(["cold", "cold", "hot"]), "s": s, "timespan": rng.choice([1, 10, 2, 3, 7, 100]),
                "lookup": lk, "err": rng.choice([None, "boom"])}
 
